@@ -6,11 +6,13 @@ import (
 	"crypto/sha256"
 	"encoding/base64"
 	"fmt"
+	"net/http"
 	"net/http/httptest"
 	"os"
 	"path/filepath"
 	"sort"
 	"strings"
+	"sync/atomic"
 	"time"
 
 	"golang.org/x/crypto/argon2"
@@ -84,6 +86,21 @@ func recFields(dir, user string) (file string, content []byte, pid uint, salt []
 	return "", nil, 0, nil, ""
 }
 
+// recFieldsOf: the same fields from record bytes already read
+func recFieldsOf(b []byte) (file string, content []byte, pid uint, salt []byte, ts string) {
+	line := string(b)
+	if i := strings.IndexByte(line, '\n'); i >= 0 {
+		line = line[:i]
+	}
+	f := strings.Split(line, ":")
+	if len(f) == 5 {
+		fmt.Sscan(f[2], &pid)
+		salt, _ = base64.URLEncoding.DecodeString(f[3])
+		ts = f[1]
+	}
+	return "", b, pid, salt, ts
+}
+
 func auxOfBytes(b []byte) []byte {
 	if i := bytes.IndexByte(b, '\n'); i >= 0 {
 		return b[i+1:]
@@ -104,6 +121,7 @@ func suiteV12(c *vctx) {
 		other := uint(3 - dflt)
 		name := fmt.Sprintf("up%d", i)
 		var master *vAgent
+		var masterDown int32
 		modeArg := mode
 		var srv *httptest.Server
 		if mode == "remote" {
@@ -112,7 +130,13 @@ func suiteV12(c *vctx) {
 			if err != nil {
 				continue
 			}
-			srv = httptest.NewServer(master.mux)
+			srv = httptest.NewServer(http.HandlerFunc(func(w http.ResponseWriter, rq *http.Request) {
+				if atomic.LoadInt32(&masterDown) != 0 { // the master's front end is failing for a while
+					http.Error(w, "upstream unavailable", http.StatusServiceUnavailable)
+					return
+				}
+				master.mux.ServeHTTP(w, rq)
+			}))
 			modeArg = srv.URL + "/api/update"
 		}
 		polType, polCond := "", ""
@@ -207,9 +231,26 @@ func suiteV12(c *vctx) {
 				last = d
 			}
 		}
+		// failing-master prelude (remote mode): a dozen upgrade requests are answered 503 (or the master is
+		// gone); once it is healthy again, idle logins must get the master's records upgraded — failed
+		// attempts may not use anything up
+		outage := mode == "remote" && r.Bool()
+		if outage {
+			atomic.StoreInt32(&masterDown, 1)
+			for k := 0; k < 14; k++ {
+				u := []string{"root", "alice", "carol"}[k%3]
+				a.iface.Authenticate(u, pw[u])
+				time.Sleep(3 * time.Millisecond)
+			}
+			time.Sleep(80 * time.Millisecond)
+			atomic.StoreInt32(&masterDown, 0)
+		}
 		for k := 0; k < 8; k++ {
 			u := []string{"root", "alice", "bob", "carol"}[r.Intn(4)]
 			right := r.Intn(3) != 0
+			if outage && k < 3 {
+				u, right = []string{"alice", "carol", "root"}[k], true
+			}
 			if saturated && k < 4 {
 				u, right = []string{"alice", "carol", "root", "bob"}[k], true
 			}
@@ -260,10 +301,19 @@ func suiteV12(c *vctx) {
 			case mode == "remote":
 				c.emit("law.C12.remote_mode_writes_nothing_locally "+desc, vtf(!changed))
 				// the master re-authenticates and upgrades its own record for the same password
+				_, _, mpidBefore, _, _ := recFieldsOf(mBefore)
 				time.Sleep(120 * time.Millisecond)
 				_, mAfter, mpid, _, _ := recFields(master.dirPath, u)
+				for w := 0; w < 20 && upgRef && mpidBefore != uint(dflt) && mpid != uint(dflt); w++ { // idle: give it time
+					time.Sleep(25 * time.Millisecond)
+					_, mAfter, mpid, _, _ = recFields(master.dirPath, u)
+				}
 				mok, _, _, _, _ := master.ref.Authenticate(u, p)
 				c.emit("law.C12.master_keeps_password "+desc, vtf(mok && bytes.Equal(auxOfBytes(mBefore), auxOfBytes(mAfter)) && (bytes.Equal(mBefore, mAfter) || mpid == uint(dflt))))
+				// on the idle pair of agents the rewrite does happen at the master (its policy permitting)
+				if upgRef && mpidBefore != uint(dflt) && mpidBefore != 0 && !(weakPolicy && u == "bob") {
+					c.emit(fmt.Sprintf("law.C12.idle_agent_performs_upgrade remote %s after-outage=%s", desc, vtf(outage)), vtf(mpid == uint(dflt)))
+				}
 			default: // local
 				if !changed {
 					// untouched is allowed; on an idle agent the rewrite must happen if upgradeable and policy ok
